@@ -10,19 +10,19 @@ import (
 
 // call sites allowed to pass skipIntegrityCheck=true: "caller -> callee"
 var c09SkipAllowed = map[string]string{
-	"pkg/database.(*db).ExecAll -> pkg/database.(*db).getAtTx":               "existence pre-check of a referenced key",
-	"pkg/database.(*db).Get -> pkg/database.(*db).getAtRevision":             "plain (non-verifiable) read",
-	"pkg/database.(*db).Get -> pkg/database.(*db).getAtTx":                   "plain (non-verifiable) read",
-	"pkg/database.(*db).GetAll -> pkg/database.(*db).get":                    "plain (non-verifiable) read",
-	"pkg/database.(*db).Scan -> pkg/database.(*db).getAtTx":                  "plain (non-verifiable) read",
-	"pkg/database.(*db).SetReference -> pkg/database.(*db).getAtTx":          "existence pre-check of a referenced key",
-	"pkg/database.(*db).TxByID -> pkg/database.(*db).serializeTx":            "plain (non-verifiable) read",
-	"pkg/database.(*db).TxScan -> pkg/database.(*db).serializeTx":            "plain (non-verifiable) read",
-	"pkg/database.(*db).VerifiableSQLGet -> pkg/database.(*db).sqlGetAt":     "value lookup only: the tx is re-read with integrity checks and the client verifies the entry digest against the proof",
-	"pkg/database.(*db).VerifiableTxByID -> pkg/database.(*db).serializeTx":  "value resolution of entries only: the tx was read with integrity checks and the client verifies each value against hVal",
-	"pkg/database.(*db).ZAdd -> pkg/database.(*db).getAtTx":                  "existence pre-check of a referenced key",
-	"pkg/database.(*db).ZScan -> pkg/database.(*db).getAtTx":                 "plain (non-verifiable) read",
-	"embedded/tools/stress_tool.main -> embedded/store.(*ImmuStore).ReadTx":  "developer load generator (package main, seen by the whole-program load only): compares what it reads with the values it has just written; no user-facing read path goes through it",
+	"pkg/database.(*db).ExecAll -> pkg/database.(*db).getAtTx":              "existence pre-check of a referenced key",
+	"pkg/database.(*db).Get -> pkg/database.(*db).getAtRevision":            "plain (non-verifiable) read",
+	"pkg/database.(*db).Get -> pkg/database.(*db).getAtTx":                  "plain (non-verifiable) read",
+	"pkg/database.(*db).GetAll -> pkg/database.(*db).get":                   "plain (non-verifiable) read",
+	"pkg/database.(*db).Scan -> pkg/database.(*db).getAtTx":                 "plain (non-verifiable) read",
+	"pkg/database.(*db).SetReference -> pkg/database.(*db).getAtTx":         "existence pre-check of a referenced key",
+	"pkg/database.(*db).TxByID -> pkg/database.(*db).serializeTx":           "plain (non-verifiable) read",
+	"pkg/database.(*db).TxScan -> pkg/database.(*db).serializeTx":           "plain (non-verifiable) read",
+	"pkg/database.(*db).VerifiableSQLGet -> pkg/database.(*db).sqlGetAt":    "value lookup only: the tx is re-read with integrity checks and the client verifies the entry digest against the proof",
+	"pkg/database.(*db).VerifiableTxByID -> pkg/database.(*db).serializeTx": "value resolution of entries only: the tx was read with integrity checks and the client verifies each value against hVal",
+	"pkg/database.(*db).ZAdd -> pkg/database.(*db).getAtTx":                 "existence pre-check of a referenced key",
+	"pkg/database.(*db).ZScan -> pkg/database.(*db).getAtTx":                "plain (non-verifiable) read",
+	"embedded/tools/stress_tool.main -> embedded/store.(*ImmuStore).ReadTx": "developer load generator (package main, seen by the whole-program load only): compares what it reads with the values it has just written; no user-facing read path goes through it",
 }
 
 // store readers whose result is the proven material of a verifiable response
